@@ -139,6 +139,7 @@ class Gamma:
         self.idf = idf or (lambda x: x)       # the id style of this case (nested look-alike ids are spelled in it too)
         self.roid = lambda x: x               # how this case spells the running order's id (see ROID_STYLES)
         self.str_decl = False
+        self.omit_item_id = False
         r = random.Random("%s|style" % seed)
         self.pretty = r.random() < 0.5 if style is None else style == "pretty"
         self.decl = r.random() < 0.3
@@ -209,7 +210,9 @@ class Gamma:
             idpart = "<itemID/>" if nid == NONE else "<itemID>%s</itemID>" % escape(nid)
             omitted = False
             body = [idpart, "<itemSlug>%s</itemSlug>" % escape(self.text(r)), self.marker(tok)]
-            if nid == NONE and r.random() < (0.6 if tag == "storyItem" else 0.3):     # no itemID element at all: no id either
+            # no itemID element at all: no id either.  Only where nothing looks items up afterwards (single transitions):
+            # an item without the required <itemID> is not schema-shaped, and the library's lookups presuppose the element
+            if self.omit_item_id and nid == NONE and r.random() < (0.6 if tag == "storyItem" else 0.3):
                 body = body[1:]
                 omitted = True
             if r.random() < 0.5:
